@@ -6363,6 +6363,13 @@ component_io_cb (GSocket *gsocket, GIOCondition condition, gpointer user_data)
         if (!agent->bytestream_tcp)
           break;
 
+        /* A frame is pending but the remaining buffers have no room at all:
+         * nothing was consumed, trying again would spin for ever. */
+        if (m.length == 0) {
+          retval = RECV_WOULD_BLOCK;
+          break;
+        }
+
         off = 0;
         for (i = 0; i < n_bufs; i++) {
           GInputVector *buf = &bufs[i];
